@@ -316,22 +316,16 @@ fn c02_try_request_table() {
     std::mem::forget((prov, user, res));
 }
 
-/// @prop C02 C03 C06 C11
-/// @tier quick
-/// @fn chmux::credit::CreditUser::request
-/// @fn chmux::credit::CreditProvider::provide
-/// @bounds pool, req, min_req (1 <= min_req <= req), later grant: full u32; closed/override: any; provider alive or dropped; two polls
-/// ready path: grants min(pool, req) >= min_req and deducts exactly that; shortage: Pending with one waiter registered under the same lock acquisition; after the peer grants enough, the next poll completes (no lost wake-up); closed/dead pools error on the first poll, never Pending
-#[kani::proof]
-#[kani::unwind(3)]
-#[kani::stub(alloc::fmt::format, empty_format)]
-fn c02_request_poll_paths() {
+/// `alive`: the dispatcher (credit provider) still exists; `closed_known`: the pool is closed
+/// (gracefully or not: symbolic) / open.  Both are concrete per harness: a symbolic `alive` makes the
+/// provider's destructor conditional and CBMC explores its drop glue under every later path (measured:
+/// 525 k steps, > 20 GB).
+fn request_poll_case(alive: bool, closed_known: bool) {
     let pool: u32 = kani::any();
     let req: u32 = kani::any();
     let min_req: u32 = kani::any();
-    let closed: Option<bool> = kani::any();
+    let closed: Option<bool> = if closed_known { Some(kani::any()) } else { None };
     let over: bool = kani::any();
-    let alive: bool = kani::any();
     let grant: u32 = kani::any();
     kani::assume(min_req >= 1 && min_req <= req);
     let (prov, mut user) = hc::send_pair(0);
@@ -401,6 +395,30 @@ fn c02_request_poll_paths() {
         }
     }
     std::mem::forget((prov, user));
+}
+
+macro_rules! request_poll_harness {
+    ($($name:ident, $alive:expr, $closed:expr;)*) => {$(
+        /// @prop C02 C03 C06 C11
+        /// @tier quick
+        /// @covers any
+        /// @fn chmux::credit::CreditUser::request
+        /// @fn chmux::credit::CreditProvider::provide
+        /// @bounds pool, req, min_req (1 <= min_req <= req), later grant: full u32; override flag symbolic; family: provider alive with an open pool / alive with a closed pool (graceful or not: symbolic) / dropped; two polls
+        /// ready path: grants min(pool, req) >= min_req and deducts exactly that; shortage: Pending with one waiter registered under the same lock acquisition; after the peer grants enough, the next poll completes (no lost wake-up); closed/dead pools error on the first poll, never Pending
+        #[kani::proof]
+        #[kani::unwind(3)]
+        #[kani::stub(alloc::fmt::format, empty_format)]
+        fn $name() {
+            request_poll_case($alive, $closed);
+        }
+    )*};
+}
+
+request_poll_harness! {
+    c02_request_poll_open, true, false;
+    c02_request_poll_closed, true, true;
+    c02_request_poll_dispatcher_gone, false, false;
 }
 
 /// @prop C02 C03
